@@ -127,7 +127,7 @@ func rank(k Key) int {
 }
 
 func project(v any) Val {
-	budget := 200000
+	budget := 20000
 	return projectD(v, 0, &budget)
 }
 
@@ -552,8 +552,18 @@ func randomHistory(c *lib.Ctx, r *rand.Rand, kind string, length int) []Event {
 	}
 	run := newRunner(init)
 	evs := []Event{{O: Op{Op: "Reset", P: []Key{}, P2: []Key{}, V: VDesc{Src: "atom"}, V2: VDesc{Src: "atom"}}, Mid: errVal, Store: run.store(), Al: []Val{}}}
+	broken := false
 	randomOps(r, run, kind, length, func(o Op) {
-		evs = append(evs, step(c, run, o))
+		if broken {
+			return // a value became unprojectable (cyclic / exploded): the history ends at its first rejected step
+		}
+		ev := step(c, run, o)
+		evs = append(evs, ev)
+		for _, v := range append(append([]Val{}, ev.Store...), ev.Al...) {
+			if strings.HasPrefix(v.T, "other:") || v.T == "unreadable" {
+				broken = true
+			}
+		}
 	})
 	c.AddEvals(run.evals)
 	return evs
